@@ -4,7 +4,7 @@ from mirlib import *
 from paths import *
 from shape import *
 from ranges import *
-import r_unchecked, r_surr, r_lookahead, r_decclass
+import r_unchecked, r_surr, r_lookahead, r_decclass, scan
 from r_writers import T37
 
 MANIFEST = {
@@ -19,11 +19,17 @@ MANIFEST = {
             'and the lead; (D3) the lead-class comparisons of the scalar validators denote exactly {<80}, {C2-DF}, {<F0} and the second-byte '
             'test 80-BF (exact interval extraction); the ISO-2022-JP validator rejects exactly {0E, 0F, 1B, >=80}; utf16_valid_up_to uses exactly '
             'the surrogate partitions and tests exactly the index it reads after a high surrogate; (D4) every unchecked read of the validators '
-            'is in bounds (available-guard dataflow, shared with C06) — an out-of-bounds read would make the answer meaningless. The '
-            'read/consumed bookkeeping across strides and tails (that the returned index is exact at every length and alignment) is '
-            'numerical and not decided; simdutf8 is trusted to agree with core::str.',
+            'is in bounds (available-guard dataflow, shared with C06) — an out-of-bounds read would make the answer meaningless; '
+            '(D5, R-SCAN) the index-driven scalar automata (utf8_valid_up_to, convert_utf8_to_utf16_up_to_invalid, the surrogate loop of '
+            'utf16_valid_up_to, the UTF-8/str Latin1 scanners) are decided by abstract interpretation of every acyclic segment between loop '
+            'heads with inductive cut-point invariants found by fixpoint: (S1) whenever the cursor moves by k units the path conditions '
+            'constrain those units to complete valid sequences (exact interval sets per unit, the table tests interpreted through the '
+            'relation proven in D2); (S2) the all-clear (len) is returned only with the distance to the end proven zero; (S3) an index short '
+            'of the end is returned only when the path excludes every valid continuation (invalid lead, failed trail test, or proven '
+            'truncation). The iterator kernels in front of them (as_chunks strides/tails and their consumed counter) are decided by R-KERNEL '
+            'where listed; simdutf8 is trusted to agree with core::str.',
     'note': 'Trusted: rustc MIR and const evaluation, mirx, rule library, Unicode Table 3-7 as transcribed in rules/r_writers.py, simdutf8 == core::str validation.',
-    'technique': 'exhaustive obligations over a const-evaluated table + expression-shape matching + exact interval extraction + bounds dataflow on MIR',
+    'technique': 'exhaustive obligations over a const-evaluated table + expression-shape matching + exact interval extraction + bounds dataflow + path-sensitive abstract interpretation of the scanner automata (interval products per unit, distance-to-end zone, fixpoint invariants) on MIR',
 }
 CONFIGS = {'quick': ['default', 'simd'], 'thorough': ['default', 'simd', 'noalloc']}
 I = ISet.of
@@ -270,4 +276,6 @@ def run(rep, facts, tier):
         n, d = r_unchecked.run(rep, f, c, 'R-UNCHECKED', lambda nm: nm.startswith(('utf_8::utf8_valid_up_to', 'utf_8::convert_utf8_to_utf16_up_to_invalid', 'mem::', 'ascii::')))
         rep.floor('R-UNCHECKED', 'unchecked reads in validators', n, 20, c)
         k = r_lookahead.run(rep, f, c, 'R-LOOKAHEAD', lambda nm: nm.startswith('mem::utf16_valid_up_to'))
+        scan.run_specs(rep, f, c, 'R-SCAN', ['utf_8::utf8_valid_up_to', 'utf_8::convert_utf8_to_utf16_up_to_invalid', 'mem::utf16_valid_up_to',
+                                             'mem::is_utf8_latin1_impl', 'mem::is_str_latin1_impl'])
     return ('other', MANIFEST['text'], [])
